@@ -53,6 +53,10 @@ pub struct GoRec {
     pub stop_tticks: u64,
     pub end_tticks: u64,
     pub first_abort_ev: Option<usize>,
+    /// answered by the input thread itself, without a search thread
+    pub inline: bool,
+    /// the parser rejected the line
+    pub parse_error: bool,
 }
 
 #[derive(Clone, Debug, Default)]
@@ -129,6 +133,8 @@ pub fn history(rec: &RunRec) -> Hist {
                         stop_tticks: 0,
                         end_tticks: 0,
                         first_abort_ev: None,
+                        inline: false,
+                        parse_error: false,
                     });
                     open_gos.push(h.gos.len() - 1);
                 }
@@ -146,8 +152,22 @@ pub fn history(rec: &RunRec) -> Hist {
             }
             EvK::Out(text) => {
                 if tid == 0 {
+                    let nlines = h.lines.len();
                     if let Some(l) = h.lines.last_mut() {
                         l.outs.push((text.clone(), e.tyields));
+                    }
+                    // a go answered by the input thread itself (no search thread)
+                    if let Some(g) = h.gos.last_mut() {
+                        if g.line + 1 == nlines && g.tid.is_none() {
+                            if text.starts_with("bestmove") {
+                                g.bestmoves.push(outrec(i, e, text));
+                                g.inline = true;
+                                let gi = h.gos.len() - 1;
+                                open_gos.retain(|&x| x != gi);
+                            } else if text.starts_with("info") {
+                                g.infos.push(outrec(i, e, text));
+                            }
+                        }
                     }
                 } else if let Some(g) = tid_go[tid] {
                     if text.starts_with("bestmove") {
@@ -162,8 +182,16 @@ pub fn history(rec: &RunRec) -> Hist {
             }
             EvK::Err(text) => {
                 if tid == 0 {
+                    let nlines_for_err = h.lines.len();
                     if let Some(l) = h.lines.last_mut() {
                         l.errs.push(text.clone());
+                        if text.contains("Failed to parse") {
+                            if let Some(g) = h.gos.last_mut() {
+                                if g.line + 1 == nlines_for_err {
+                                    g.parse_error = true;
+                                }
+                            }
+                        }
                         if text.contains("already running") {
                             if let Some(g) = h.gos.last_mut() {
                                 if g.line + 1 == h.lines.len() {
